@@ -163,6 +163,7 @@ def cli(argv=sys.argv, mode='output'):
         return F2.to_dimacs()
     else:
         F2.to_file(args.output, 'dimacs')
+        args.output.flush()
 
 
 # Launcher
